@@ -90,7 +90,13 @@ fn hist_step<T: L>(n: usize, regs: &mut Vec<T>, tok: &str) -> Option<()> {
         ("xor", 4) => r(ps[2], regs)?.bin_form(2, (d + 2 * us(ps[2])? + 3 * us(ps[3])?) % NFORMS, &r(ps[3], regs)?),
         ("flip", 4) => r(ps[2], regs)?.flip_cp(us(ps[3])?),
         ("swap", 5) => r(ps[2], regs)?.swap_cp(us(ps[3])?, us(ps[4])?),
-        ("swadj", 4) => r(ps[2], regs)?.swapadj_cp(us(ps[3])?),
+        ("swadj", 4) => {
+            // on the register itself (not on a copy): a copying form that modifies its receiver
+            // shows in the register file
+            let a = us(ps[2])?;
+            let i = us(ps[3])?;
+            regs.get_mut(a)?.swapadj_cp(i)
+        }
         ("cof0", 4) => r(ps[2], regs)?.cofactors_(us(ps[3])?).0,
         ("cof1", 4) => r(ps[2], regs)?.cofactors_(us(ps[3])?).1,
         ("fromcof", 5) => T::from_cofactors_(&r(ps[2], regs)?, &r(ps[3], regs)?, us(ps[4])?),
@@ -240,7 +246,14 @@ fn run_lut<T: L>(toks: &[&str]) -> Option<String> {
                 l.swapadj_ip(i);
                 format!("ok {}", sh(&l))
             } else {
-                format!("ok {}", sh(&l.swapadj_cp(i)))
+                // `swap_adjacent` takes `&mut self` but is the copying form: the receiver must be
+                // what it was
+                let before = l.clone();
+                let r = l.swapadj_cp(i);
+                if l != before {
+                    return Some("ok receiver-modified".into());
+                }
+                format!("ok {}", sh(&r))
             }
         }
         ("cof", 4) => {
